@@ -532,7 +532,17 @@ func (c *freshCtx) recvKeepsFresh(call *ast.CallExpr, sel *ast.SelectorExpr) boo
 		c.used["A-CODEC-FRESH: an object filled by "+name+" from serialised bytes shares no memory with the encoder's input"] = true
 		return true
 	}
-	return true // other methods on a local value do not make it alias parameters unless they take them as arguments (checked as arguments of other locals only)
+	// any other method may store its arguments into the receiver (directly through a pointer receiver, or through
+	// the pointers a value receiver holds): every argument that can reach mutable memory must itself be fresh
+	for _, a := range call.Args {
+		if pointerFree(c.typeOf(a), map[types.Type]bool{}) {
+			continue
+		}
+		if !c.expr(a) {
+			return c.fail("method %s is called on the result with an argument (%s) that may share memory with the inputs", name, exprStr(a))
+		}
+	}
+	return true
 }
 
 // paramOnlyFilled: inside decl, parameter p is only handed to decoders (as destination) or read.
